@@ -14,6 +14,40 @@ GUARDED = {
 }
 
 
+def local_statics(x, out):
+    if isinstance(x, dict):
+        if x.get("s") == "decl":
+            for v in x.get("v") or []:
+                if v.get("staticlocal") or v.get("tls"):
+                    out.append(v)
+        for v in x.values():
+            if isinstance(v, (dict, list)):
+                local_statics(v, out)
+    elif isinstance(x, list):
+        for v in x:
+            local_statics(v, out)
+
+
+def check_per_tu_state(rep, db, rule="R-C18-statics"):
+    """a function with internal linkage defined in a header exists once per translation unit, and so does every static / thread_local
+    object declared inside it: state the library believes to be one per process (or per thread) is silently duplicated"""
+    n = 0
+    for f in db.functions:
+        if f.get("dep") or "body" not in f or not f.get("internal") or not (f.get("n") or "").startswith("rlbox"):
+            continue
+        vs = []
+        local_statics(f["body"], vs)
+        for v in vs:
+            t = v.get("t") or {}
+            if v.get("cx") or (t.get("const") and t.get("k") in ("int", "bool", "enum", "float", "ptr")):
+                continue
+            n += 1
+            rep.violation(rule, "static local '%s' of %s [one copy per translation unit]" % (v.get("n"), f["n"]),
+                          "%s has internal linkage (namespace-scope `static`), so each translation unit that includes the header gets its own copy of the %s object '%s' declared in it: "
+                          "what one translation unit records there is invisible to code compiled in another" % (f["n"], "thread_local" if v.get("tls") else "static", v.get("n")), v.get("loc") or f["loc"], db.label)
+    return n
+
+
 def run(rep, tier):
     rep.rule("R-C18-statics", "every variable with static storage duration defined by the headers (static data members, namespace scope, function-local statics, embedder-TLS macro variables) "
              "is immutable (const/constexpr), thread_local, a lock, or listed as guarded by a named lock; anything else is shared mutable state between instances")
@@ -36,6 +70,8 @@ def run(rep, tier):
                 (_c14.check_create if f["sn"] == "create_sandbox" else _c14.check_destroy)(RuleView(rep, {"R-C14-registry": "R-C18-publish"}), db, f, inst_, {})
             except Inconclusive as ex:
                 rep.inconclusive("R-C18-publish", site(f), str(ex), inst_)
+    for db in dbs:
+        check_per_tu_state(rep, db)
     for db in dbs:
         rep.units.append(db.label)
         label = db.label
